@@ -283,15 +283,17 @@ class _ThresholdedConfusionMatrix:
     self.p_trues += other.p_trues
     self.p_preds += other.p_preds
 
-  @functools.cached_property
+  # These are derived from counts that keep being merged into, they cannot be
+  # cached.
+  @property
   def precision(self):
     return math_utils.safe_divide(self.tp_preds, self.p_preds)
 
-  @functools.cached_property
+  @property
   def recall(self):
     return math_utils.safe_divide(self.tp_trues, self.p_trues)
 
-  @functools.cached_property
+  @property
   def f1_score(self):
     return _f1_score(self.precision, self.recall)
 
